@@ -15,7 +15,7 @@ pub const SENDERS: [&str; 12] = [
     "airdrop",
 ];
 
-pub const WORLDS: [&str; 5] = ["fresh", "evolved", "transferred", "abandoned", "pending"];
+pub const WORLDS: [&str; 6] = ["fresh", "evolved", "transferred", "abandoned", "pending", "repointed"];
 
 const SETUP: &[&str] = &[
     "reset 100",
@@ -98,6 +98,16 @@ const PENDING: &[&str] = &[
     "reward owner setowner user5",
     "disp owner setowner user5",
     "reg owner setowner user5",
+];
+
+/// every configurable counterpart address re-pointed at plain accounts (user5 / user6) AFTER the
+/// contracts have talked to each other: authorisation must follow the configuration in force now,
+/// not the one that was in force when a contract first saw its counterpart
+const REPOINT: &[&str] = &[
+    "reward owner config user5 - -",
+    "disp owner config user5 user6 - - - -",
+    "reg owner config user5",
+    "hub owner config user6 user5 - - user5 user6 user5",
 ];
 
 const CELLS: &[(&str, bool)] = &[
@@ -195,6 +205,11 @@ fn replay<A: Write, B: Write>(em: &mut Emitter<A, B>, world: &str, cell_note: &s
         }
         "pending" => {
             for l in PENDING {
+                em.emit_line(l);
+            }
+        }
+        "repointed" => {
+            for l in REPOINT {
                 em.emit_line(l);
             }
         }
